@@ -217,7 +217,7 @@ pub enum Outcome {
     /// accepted, evaluation returned an error value.
     EvalError(ErrInfo),
     /// accepted and emitted.
-    Doc { yaml: String, json: Value },
+    Doc { yaml: String, json: Value, direct: Value },
     /// a stage panicked.
     Panic { stage: &'static str, accepted: bool, info: PanicInfo },
     /// emitted YAML did not parse back (reported by C03) or serialisation failed.
@@ -313,10 +313,11 @@ pub fn run(src: &Sources, base: Option<openapiv3::OpenAPI>) -> Outcome {
             b = b.with_base(base);
         }
         let api = b.into_openapi();
-        serde_yaml::to_string(&api)
+        let direct = serde_json::to_value(&api).unwrap_or(Value::Null);
+        serde_yaml::to_string(&api).map(|y| (y, direct))
     }) {
-        Ok(Ok(yaml)) => match serde_yaml::from_str::<Value>(&yaml) {
-            Ok(json) => Outcome::Doc { yaml, json },
+        Ok(Ok((yaml, direct))) => match serde_yaml::from_str::<Value>(&yaml) {
+            Ok(json) => Outcome::Doc { yaml, json, direct },
             Err(e) => Outcome::EmitError(format!("emitted YAML does not parse: {e}")),
         },
         Ok(Err(e)) => Outcome::EmitError(format!("serialisation failed: {e}")),
